@@ -193,6 +193,16 @@ def run_case(case):
     judge(R, lin, floors, 'correction_first_order',
           '|diff(pva, correct_pva(pva, s x)) - T_oi s x|', f'x0={x0.tolist()}')
 
+    if not wa:
+        # a correction of kilometres (coarse initial position) must still leave altitude and vertical velocity untouched
+        xb = np.zeros(n)
+        xb[:2] = rng.uniform(1500, 6000, 2) * rng.choice([-1, 1], 2)
+        cb = em.correct_pva(pva, xb)
+        bump('twoD_alt_vd_frozen')
+        if not (np.array([cb.alt]).view(np.uint64) == np.array([pva.alt]).view(np.uint64)).all() or \
+                not (np.array([cb.VD]).view(np.uint64) == np.array([pva.VD]).view(np.uint64)).all():
+            fail('twoD_frozen', f'2-D correction by {xb[:2].tolist()} m changed altitude or VD: alt {pva.alt!r} -> {cb.alt!r}, VD {pva.VD!r} -> {cb.VD!r}')
+
     # ---- very small corrections: the linear term itself must still be there (a small-angle shortcut that drops it, a
     # threshold below which nothing is applied, ...).  Relative comparison, rounding floors per group.
     for t in (1e-4, 1e-6):
